@@ -218,6 +218,11 @@ func ucipos(args []string) {
 			case x < 45:
 				shape = "extend"
 				g = extend(r, *cur, 1+r.Intn(4))
+			case len(cur.moves) > 1 && shadow(*cur).Result().Outcome == board.Draw && r.Intn(2) == 0:
+				// the game is drawn (repetition, fifty moves, material): take back one or two moves - the
+				// position reached may still be a drawn one, exactly as if it had been set up from scratch
+				shape = "shorten-from-drawn"
+				g = gameT{start: cur.start, moves: append([]string{}, cur.moves[:len(cur.moves)-1-r.Intn(2)]...)}
 			case x < 58:
 				shape = "repeat"
 				g = *cur
